@@ -112,3 +112,25 @@ def sys_init__body(self, n, phase, v, i, state):
         "i": DISPATCH("_get_inp_current", n, phase, self._phase_lkup[n]),
         "state": st,
     }
+
+
+def _find_domain(self, n, domain, v):
+    """the voltage domain of a row: a source is its own domain; a mux belongs to the root source above the first input
+    that carries a voltage (input 0 if none does); everything else inherits the domain handed in"""
+    if self._g[n]._component_type.name == "SOURCE":
+        return self._g[n]._params["name"]
+    elif self._g[n]._component_type.name == "PMUX":
+        p = self._parents[n]
+        vin = [v[i] for i in p]
+        idx = 0
+        for i in range(len(vin)):
+            if abs(vin[i]) != 0.0:
+                idx = i
+                break
+        an = rx.ancestors(self._g, p[idx])
+        if an == set():
+            return self._g[p[idx]]._params["name"]
+        for i in an:
+            if self._g.in_degree(i) == 0:
+                return self._g[i]._params["name"]
+    return domain
